@@ -8,7 +8,7 @@
    UpdateThreeWayMerge), perform/rdelete for Create and Delete.
 
    Definitions only; proofs in Engine/Update2Proofs.v. *)
-From Coq Require Import List String Bool Arith.
+From Coq Require Import List String Ascii Bool Arith.
 From Helm Require Import Common.Assoc Engine.Cluster Engine.Obj2.
 Import ListNotations.
 Local Open Scope string_scope.
@@ -126,3 +126,64 @@ Fixpoint k2_delete (o : store2) (rs : list res2) (muts : list (verb * string))
       then k2_delete (adel (r2_key r) o) t (muts ++ [(VDelete, r2_key r)])%list
       else k2_delete o t muts
   end.
+
+(* ---- action.recreate (pkg/action/upgrade.go:631; --recreate-pods of upgrade and rollback), round 5 ----
+   For every UPDATED resource whose object, as Client.update left it in the Info (= as the store holds it after
+   the update), has a pod selector (kube.SelectorsForObject: workload kinds by spec.selector, a Service by a
+   NON-EMPTY spec.selector; anything else, and a Service without selector, is skipped): the pods of the
+   resource's namespace whose labels satisfy the selector are deleted.  The selectors are those of the objects as
+   they were when Client.update returned (the Infos are not fetched again).
+   Of the kinds SelectorsForObject knows, the model has Deployment (matchLabels only) and Service. *)
+Fixpoint prefixb (p s : string) : bool :=
+  match p with
+  | EmptyString => true
+  | String c p' => match s with
+                   | String d s' => Ascii.eqb c d && prefixb p' s'
+                   | EmptyString => false
+                   end
+  end.
+
+(* store keys are namespace/group/kind/name; pods are core kinds *)
+Definition pod_key_in (ns key : string) : bool := prefixb (ns ++ "//Pod/") key.
+
+Definition labels_of (o : tree) : list (string * tree) :=
+  match tget ["metadata"; "labels"] o with Some (TM l) => l | _ => [] end.
+
+Definition sel_match (sel labs : list (string * tree)) : bool :=
+  forallb (fun kv => match aget (fst kv) labs with Some v => teqv v (snd kv) | None => false end) sel.
+
+Definition selector_of (r : res2) (obj : tree) : option (list (string * tree)) :=
+  if String.eqb (r2_kind r) "Deployment" && String.eqb (r2_group r) "apps" then
+    (* metav1.LabelSelectorAsSelector: no requirement = everything *)
+    match tget ["spec"; "selector"; "matchLabels"] obj with
+    | Some (TM ml) => Some ml
+    | _ => Some []
+    end
+  else if String.eqb (r2_kind r) "Service" && String.eqb (r2_group r) "" then
+    match tget ["spec"; "selector"] obj with
+    | Some (TM (x :: l)) => Some (x :: l)
+    | _ => None                               (* "Service is defined without a selector": skipped *)
+    end
+  else None.
+
+(* (namespace, selector) of the updated resources *)
+Fixpoint recreate_sels (o : store2) (rs : list res2) : list (string * list (string * tree)) :=
+  match rs with
+  | [] => []
+  | r :: t =>
+      match aget (r2_key r) o with
+      | Some obj => match selector_of r obj with
+                    | Some sel => (r2_ns r, sel) :: recreate_sels o t
+                    | None => recreate_sels o t
+                    end
+      | None => recreate_sels o t
+      end
+  end.
+
+Definition pod_selected (sels : list (string * list (string * tree))) (kv : string * tree) : bool :=
+  existsb (fun s => pod_key_in (fst s) (fst kv) && sel_match (snd s) (labels_of (snd kv))) sels.
+
+Definition k2_recreate (o : store2) (updated : list res2) : store2 * list (verb * string) :=
+  let sels := recreate_sels o updated in
+  (filter (fun kv => negb (pod_selected sels kv)) o,
+   map (fun kv => (VDelete, fst kv)) (filter (pod_selected sels) o)).
